@@ -100,7 +100,7 @@ def one_line(n: ast.AST) -> str:
     return " ".join(src(n).split())
 
 
-def find_targets(v: FnView, kind: str, pattern: str) -> list[ast.AST]:
+def find_targets(v: FnView, kind: str, pattern: str, arms_fallback: bool = False) -> list[ast.AST]:
     rx = re.compile(pattern)
     if kind == "stmt":
         cands = v.find(lambda n: isinstance(n, SIMPLE))
@@ -125,7 +125,20 @@ def find_targets(v: FnView, kind: str, pattern: str) -> list[ast.AST]:
         text = one_line(n.value) if kind == "ret" and n.value is not None else ("None" if kind == "ret" else one_line(n))  # type: ignore[attr-defined]
         if rx.search(text):
             out.append(n)
+    if kind == "ret" and not out and arms_fallback:
+        # a conditional-expression return abbreviates guarded returns: when no plain return
+        # matches (the function was rewritten that way), its arms are the targets
+        for n in cands:
+            arms = _arms(n.value) if n.value is not None else []  # type: ignore[attr-defined]
+            if len(arms) > 1:
+                out.extend(a for a in arms if rx.search(one_line(a)))
     return out
+
+
+def _arms(e: ast.expr) -> list[ast.expr]:
+    if isinstance(e, ast.IfExp):
+        return _arms(e.body) + _arms(e.orelse)
+    return [e]
 
 
 def run_gates(prog: Program, report: Report, table: list, pid: str) -> None:
@@ -149,7 +162,7 @@ def _run_one(prog: Program, report: Report, g) -> int:
         if isinstance(g, Must):
             _must(report, v, g)
             return 1
-        targets = find_targets(v, g.kind, g.target)
+        targets = find_targets(v, g.kind, g.target, arms_fallback=isinstance(g, Gate))
         if len(targets) < g.min:
             raise AnalysisError(f"{g.rule}: {g.fn}: target /{g.target}/ found {len(targets)} time(s), expected at least {g.min} (table needs maintenance)")
         if isinstance(g, Gate):
@@ -167,27 +180,31 @@ def _run_one(prog: Program, report: Report, g) -> int:
                     if bad:
                         report.violate(g.rule, v.fn, t, f"over-guarded: {one_line(t)[:100]}", f"{g.why}; it is additionally guarded by {bad}, so it no longer happens in cases where it must", what=f"{g.why.split(';')[0]}: no stronger guard than {g.needs}")
         elif isinstance(g, Val):
-            from .rn import canon
+            from .rn import canon, kind_of
 
-            want = canon(ast.parse(g.expect, mode="eval").body)
+            want_ast = ast.parse(g.expect, mode="eval").body
+            want = canon(want_ast)
             for t in targets:
                 n += 1
                 if g.kind.startswith("arg:"):
                     k = int(g.kind[4:])
                     e = t.args[k] if -len(t.args) <= k < len(t.args) else None  # type: ignore[attr-defined]
                 elif g.kind == "ret":
-                    e = t.value  # type: ignore[attr-defined]
+                    e = t.value if isinstance(t, ast.Return) else t
                 elif g.kind == "stmt":
                     e = getattr(t, "value", None)
                 else:
                     e = t
                 if e is None:
                     raise AnalysisError(f"{g.rule}: {g.fn}: target /{g.target}/ has no value expression")
-                got = canon(v.res.expr(e) if g.resolve else e)
-                if got == want:
+                cands = [e] + [v.res.expr(e, d) for d in (1, 2, 3)]
+                gots = [canon(c) for c in cands]
+                if want in gots:
                     report.ob(g.rule, g.fn, f"{g.why.split(';')[0]}: `{one_line(e)[:70]}` = {want}")
+                elif not any(kind_of(c) == kind_of(want_ast) for c in cands):
+                    raise AnalysisError(f"{g.rule}: {g.fn}: `{one_line(e)[:60]}` is a different construct than the documented formula `{want[:60]}` (unrecognised idiom)")
                 else:
-                    report.violate(g.rule, v.fn, t, f"{g.why.split(';')[0]}: {one_line(t)[:100]}", f"{g.why}; the expression normalises to `{got}` but the documented formula is `{want}`", what=f"/{g.target}/ = {want}")
+                    report.violate(g.rule, v.fn, t, f"{g.why.split(';')[0]}: {one_line(t)[:100]}", f"{g.why}; the expression normalises to `{gots[0]}` but the documented formula is `{want}`", what=f"/{g.target}/ = {want}")
         elif isinstance(g, Form):
             rx = re.compile(g.form)
             for t in targets:
@@ -200,12 +217,21 @@ def _run_one(prog: Program, report: Report, g) -> int:
                         continue
                     text = one_line(args[k])
                 elif g.kind == "ret":
-                    text = one_line(t.value) if t.value is not None else "None"  # type: ignore[attr-defined]
+                    tv = t.value if isinstance(t, ast.Return) else t
+                    text = one_line(tv) if tv is not None else "None"
                 elif g.kind == "loop":
                     text = getattr(t, "_head", one_line(t))
                 else:
                     text = one_line(t)
-                if rx.search(text):
+                texts = [text]
+                if g.kind in ("stmt", "ret") and isinstance(t, ast.stmt) and getattr(t, "value", None) is not None:
+                    for d in (1, 2, 3):
+                        rv = one_line(v.res.expr(t.value, d))  # type: ignore[attr-defined]
+                        if g.kind == "ret":
+                            texts.append(rv)
+                        elif isinstance(t, ast.Assign) and len(t.targets) == 1:
+                            texts.append(f"{one_line(t.targets[0])} = {rv}")
+                if any(rx.search(x) for x in texts):
                     report.ob(g.rule, g.fn, f"{g.why.split(';')[0]}: [{text[:80]}] has the required form")
                 else:
                     report.violate(g.rule, v.fn, t, f"{g.why.split(';')[0]}: {text[:100]}", f"{g.why}; found `{text[:100]}`", what=f"/{g.target}/ has form /{g.form}/")
